@@ -86,7 +86,7 @@ PROPS["C03"] = {
     "units": [U("TestVerif_C03_Observations", PROC, R(2500), R(50000, shards=16, timeout=1500)),
               U("TestVerif_C03_P2P", "./pkg/p2p", R(3000), R(80000, shards=16, timeout=1500)),
               U("TestVerif_C03_HeartbeatTable", "./pkg/p2p", R(300), R(3000, shards=4, timeout=1200)),
-              U("TestVerif_C03_HeartbeatTableConcurrent", "./pkg/common", R(100, shards=2), R(4000, shards=16, timeout=1200), race=True, replay_tries=4)],
+              U("TestVerif_C03_HeartbeatTableConcurrent", "./pkg/common", R(100, shards=2), R(4000, shards=16, timeout=1200), race=True, replay_tries=3, replay_repeat=4)],
 }
 
 PROPS["C13"] = {
@@ -108,7 +108,7 @@ PROPS["C14"] = {
             "non-trivial = at least one retry and at least one expiry in the case",
     "assumptions": ["virtual time = shifting firstObserved/lastRetry of every entry (the only inputs the routine derives ages from); ages are kept 0.5 s off the whole-second thresholds and cases whose real execution could blur that are inconclusive",
                     "retry budget 14400 is the value at the pinned commit", "'about' is read as: lower bounds 4 min (parked) / 50 min (completed), upper bound two ticks after the threshold"],
-    "units": [U("TestVerif_C14_Schedule", PROC, R(4000), R(100000, shards=16, timeout=1500)),
+    "units": [U("TestVerif_C14_Schedule", PROC, R(4000), R(100000, shards=16, timeout=1500), replay_tries=3, replay_repeat=3),
               U("TestVerif_C14_Budget", PROC, {"checks": 0, "shards": 1, "timeout": 600}, {"checks": 0, "shards": 1, "timeout": 600}, kind="plain")],
 }
 
@@ -192,7 +192,7 @@ PROPS["C18"] = {
     "assumptions": ["services shorten their own node's back-off to 1..5 ms through in-package access; the bound checked is then the configured one",
                     "failures in the last 250 ms before the cancel are not judged; a machine whose 1 ms timer fires > 100 ms late makes the time bounds inconclusive (the at-most-one-instance invariant is still judged)",
                     "interleavings inside the supervisor are sampled, not enumerated"],
-    "units": [U("TestVerif_C18_Trees", "./pkg/supervisor", R(48, shards=8, shrinktime="30s", timeout=900), R(640, shards=16, shrinktime="60s", timeout=1500), race=True, crash_is_violation=True, replay_tries=6,
+    "units": [U("TestVerif_C18_Trees", "./pkg/supervisor", R(48, shards=8, shrinktime="30s", timeout=900), R(640, shards=16, shrinktime="60s", timeout=1500), race=True, crash_is_violation=True, replay_tries=4, replay_repeat=10,
                 wallclock_fps=["C18/failed-service-not-restarted", "C18/group-sibling-not-cancelled", "C18/not-stopped-by-cancel"])],
 }
 
@@ -203,7 +203,7 @@ PROPS["C20"] = {
     "assumptions": ["consecutive duplicate deliveries caused by duplicate filters are collapsed (the statement does not forbid them)",
                     "the gRPC transport is replaced by in-process fake streams whose Send honours the stream context",
                     "known finding C20/blocked-behind-unread-subscriber is excluded by construction: a third unread VAA for a subscriber that stopped reading is not published while the finding is listed"],
-    "units": [U("TestVerif_C20_Spy", "./cmd/spy", R(600, shards=4, timeout=900), R(20000, shards=16, timeout=1500), race=True, replay_tries=3,
+    "units": [U("TestVerif_C20_Spy", "./cmd/spy", R(600, shards=4, timeout=900), R(20000, shards=16, timeout=1500), race=True, replay_tries=3, replay_repeat=4,
                 wallclock_fps=["C20/operation-blocked", "C20/not-delivered"])],
 }
 
@@ -217,7 +217,7 @@ PROPS["C19"] = {
     "assumptions": ["independent verifier refvaa; the explorer is built against the node module version pinned in its go.mod, as the repository builds it",
                     "the chain RPC is an unreachable unix path, so a VAA naming an unknown set can only be refused", "duplicate suppression itself (ristretto, asynchronous) is not asserted"],
     "units": [U("TestVerif_C19_Gate", "./processor", R(1500), R(40000, shards=16, timeout=1500), module=EX),
-              U("TestVerif_C19_Lookup", "./guardiansets", R(150, shards=2, timeout=900), R(3000, shards=16, timeout=1500), module=EX, race=True, crash_is_violation=True, replay_tries=5),
+              U("TestVerif_C19_Lookup", "./guardiansets", R(150, shards=2, timeout=900), R(3000, shards=16, timeout=1500), module=EX, race=True, crash_is_violation=True, replay_tries=3, replay_repeat=5),
               U("TestVerif_C19_FutureLookup", "./guardiansets", R(300, shards=2, timeout=900), R(6000, shards=16, timeout=1500), module=EX, race=True, crash_is_violation=True)],
 }
 PROPS["C07"]["units"].append(U("TestVerif_C07_ExplorerQuorum", "./processor", PLAIN, PLAIN, kind="plain", module=EX))
@@ -246,7 +246,7 @@ PROPS["C10"] = {
     "assumptions": ["safety is judged against the server-side response log (last receipt answer and highest head served before the message arrived)",
                     "exactly-once is judged only for cases without re-observation requests and without watcher restarts; a message may be absent only if the node's last answer for its receipt was an error",
                     "a step that does not settle within 3 s makes the case inconclusive", "faults are confined to receipt lookups and fewer than three consecutive head polls (more ends Run by design)"],
-    "units": [U("TestVerif_C10_Watcher", "./pkg/ethereum", R(300, shards=8, timeout=900, shrinktime="60s"), R(12000, shards=16, timeout=1800, shrinktime="120s"), replay_tries=3)],
+    "units": [U("TestVerif_C10_Watcher", "./pkg/ethereum", R(300, shards=8, timeout=900, shrinktime="60s"), R(12000, shards=16, timeout=1800, shrinktime="120s"), replay_tries=3, replay_repeat=4)],
 }
 
 _ALPH_RULE = ("the real Watcher.Run under a supervisor against a simulated Alephium node (http.RoundTripper), 1 ms poll interval, stepped one operation at a time: "
@@ -258,14 +258,14 @@ PROPS["C08"] = {
     "rule": _ALPH_RULE + ", re-observation requests and node API errors on any endpoint; non-trivial = hostile / orphaned / look-alike events present and at least one message forwarded",
     "assumptions": ["safety is judged against the simulator's ground truth and its response log (last main-chain and height answers before the message arrived)",
                     "block timestamps are kept 60 s away from every wall-clock threshold", "field fidelity is C11's job"],
-    "units": [U("TestVerif_C08_Watcher", ALPH, R(200, shards=8, timeout=900, shrinktime="60s"), R(8000, shards=16, timeout=1800, shrinktime="120s"), replay_tries=3, crash_is_violation=True)],
+    "units": [U("TestVerif_C08_Watcher", ALPH, R(200, shards=8, timeout=900, shrinktime="60s"), R(8000, shards=16, timeout=1800, shrinktime="120s"), replay_tries=3, replay_repeat=6, crash_is_violation=True)],
 }
 PROPS["C09"] = {
     "rule": _ALPH_RULE + "; no injected faults; after the script the chain height rises by 260 and every well-formed token-bridge message in a main-chain block must have been forwarded exactly once by the polling "
             "path; at no time more than 200 page requests without a count request, no exit of Run, no process crash; non-trivial = hostile events or an append between count and page request, and at least one message forwarded",
     "assumptions": ["'eventually' is replaced by a bound: three further poll rounds after the closing height jump", "events that exist before the watcher's first count request are out of scope (it starts from the current count)",
                     "API faults make Run exit by design and are exercised under C08's safety oracle only"],
-    "units": [U("TestVerif_C09_Watcher", ALPH, R(200, shards=8, timeout=900, shrinktime="60s"), R(10000, shards=16, timeout=1800, shrinktime="120s"), replay_tries=3, crash_is_violation=True)],
+    "units": [U("TestVerif_C09_Watcher", ALPH, R(200, shards=8, timeout=900, shrinktime="60s"), R(10000, shards=16, timeout=1800, shrinktime="120s"), replay_tries=3, replay_repeat=6, crash_is_violation=True)],
 }
 
 def setup():
